@@ -476,6 +476,9 @@ def run(chk):
             check_tlwe_op(chk, v, name, spec)
         check_extraction(chk, v)
         check_tlwe_monomial(chk, v)
+        # R7 rests on the polynomial routine it delegates to: (X^a - 1) * p for every a in [0, 2N), a = 0 included (C11.R1 re-evaluated)
+        from rules import c11 as _c11, c04 as _c04
+        _c11.check_monomial(_c04._Sub(chk, "R7"), v, "torusPolynomialMulByXaiMinusOne", "coefsT", True)
 
 
 def tlwe_monomial_by_interpretation(chk, v, f):
